@@ -60,6 +60,10 @@ ASSUMPTIONS = [
     "tokens (ino, mtime, size) are abstracted to fresh identities and file contents to injective content ids in the "
     "model; real bytes are judged by the oracle (hash = name, bytes = manifest)",
     "collision-freeness of md5 on the contents in play (hypothesis [consistent] of the theorems)",
+    "hashing INSIDE one writer (build's thread pool for large files, imap_unordered) is C03's model (HashSched); "
+    "here it is only exercised, not modelled: a share of the scheduled and free-running runs lowers the large-file "
+    "threshold to 0 (patched from the harness as c03.py does), uses checksum_jobs in {None,2,4} and delays the read "
+    "of selected files so the pool completes out of listing order; the manifest oracle judges the outcome",
 ]
 
 IMPORTS = "From Coq Require Import NArith List.\nFrom DvcData Require Import Model.Concurrent."
@@ -197,6 +201,29 @@ def _install():
     orig_set_many = HashesCache.set_many
     orig_set = diskcache.Cache.set
 
+    # pool-hashing path of build(): lower the large-file threshold (as harness/props/c03.py does) instead of
+    # writing megabytes, and delay the read of selected files so that the pool completes out of order
+    import dvc_data.hashfile.build as bmod
+
+    o_bf, o_hash = bmod._build_files, bmod.hash_file
+
+    def p_build_files(root, file_infos, fs, name, **kw):
+        cfg = _POOL.get("cfg")
+        if cfg is not None:
+            kw["large_file_threshold"] = cfg["threshold"]
+        return o_bf(root, file_infos, fs, name, **kw)
+
+    def p_hash_file(path, *a, **kw):
+        cfg = _POOL.get("cfg")
+        if cfg is not None:
+            d = cfg["delays"].get(path)
+            if d:
+                time.sleep(d)
+        return o_hash(path, *a, **kw)
+
+    bmod._build_files = p_build_files
+    bmod.hash_file = p_hash_file
+
     def _note_rows(keys, how):
         s = _S
         tid = getattr(_tl, "tid", None)
@@ -288,6 +315,28 @@ def gen_workloads(rng, n, big=False):
     return wkls
 
 
+def gen_pool_workloads(rng, n):
+    """trees that take the POOL hashing path once the threshold is lowered: every writer has >= 3 files with
+    pairwise different non-empty contents in one directory (plus a few nested), contents shared across writers"""
+    contents = [b"pool-%d-" % i + bytes([65 + i]) * (5 + 11 * i) for i in range(7)]
+    top = ["a", "b", "c", "e", "h", "u"]
+    sub = ["d/c", "d/e", "d/k"]
+    wkls = []
+    for _w in range(n):
+        wl = {}
+        for nm, c in zip(rng.sample(top, rng.randint(3, 5)), rng.sample(contents, 5)):
+            wl[nm] = c
+        for nm, c in zip(rng.sample(sub, rng.randint(0, 3)), rng.sample(contents, 3)):
+            wl[nm] = c
+        wkls.append(wl)
+    return wkls
+
+
+def gen_pool(rng):
+    return {"jobs": rng.choice([None, 2, 4]), "order": rng.choice(["asc", "desc", "rand"]),
+            "seed": rng.randrange(1000), "step": 0.004}
+
+
 def gen_schedule(rng, n, length=400):
     """mix of styles: uniform, bursty, round-robin with jitter, one writer delayed"""
     style = rng.choice(["uniform", "bursty", "rr", "late", "pairs"])
@@ -321,6 +370,30 @@ def gen_schedule(rng, n, length=400):
 
 _STATE: dict = {}
 _STATS: dict = {}
+_POOL: dict = {}
+
+
+def pool_delays(root, wkls, pool):
+    """{workspace path: seconds}: within every directory of every writer's tree the files are ranked (by name,
+    ascending / descending / a seeded permutation) and the k-th waits k * step before it is read, so the
+    hashing pool completes in an order unrelated to the listing order"""
+    import random as _random
+
+    out = {}
+    r = _random.Random(pool.get("seed", 0))
+    for i, wl in enumerate(wkls):
+        bydir: dict = {}
+        for rel in wl:
+            bydir.setdefault(os.path.dirname(rel), []).append(rel)
+        for rels in bydir.values():
+            rels = sorted(rels)
+            if pool["order"] == "desc":
+                rels.reverse()
+            elif pool["order"] == "rand":
+                r.shuffle(rels)
+            for k, rel in enumerate(rels):
+                out[os.path.join(root, f"w{i}", *rel.split("/"))] = k * pool.get("step", 0.004)
+    return out
 
 
 def _run_state_dir(ctx):
@@ -344,7 +417,9 @@ def _writer_body(cls, store, ws, st):
     from dvc_data.hashfile.transfer import transfer
 
     odb = impl.make_odb(cls, store, state=st)
-    staging, _meta, obj = build(odb, ws, localfs, "md5")
+    cfg = _POOL.get("cfg")
+    kw = {"checksum_jobs": cfg["jobs"]} if cfg is not None else {}
+    staging, _meta, obj = build(odb, ws, localfs, "md5", **kw)
     res = transfer(staging, odb, {obj.hash_info}, shallow=False)
     return obj.oid, sorted(h.value for h in res.failed)
 
@@ -363,7 +438,7 @@ def _thread_main(s: Sched, tid, cls, store, ws, st, results):
         s.finish(tid)
 
 
-def run_threads(ctx, cls, wkls, schedule, prepop=None, free=False, shared_state=True, _root=None):
+def run_threads(ctx, cls, wkls, schedule, prepop=None, free=False, shared_state=True, _root=None, pool=None):
     """returns dict(trace, grants, results, store, rows, leftovers, root)"""
     global _S
     from dvc_data.hashfile.state import State
@@ -395,6 +470,8 @@ def run_threads(ctx, cls, wkls, schedule, prepop=None, free=False, shared_state=
                             args=(s, i, cls, store, os.path.join(root, f"w{i}"), states[i % len(states)], results))
            for i in range(n)]
     _S = s
+    if pool:
+        _POOL["cfg"] = {"threshold": 0, "jobs": pool.get("jobs"), "delays": pool_delays(root, wkls, pool)}
     try:
         for t in ths:
             t.start()
@@ -415,6 +492,7 @@ def run_threads(ctx, cls, wkls, schedule, prepop=None, free=False, shared_state=
     finally:
         s.on = False
         _S = None
+        _POOL.pop("cfg", None)
     if not shared_state:
         for x in states:
             x.close()
@@ -772,14 +850,16 @@ def overlap(wkls):
     return shared
 
 
-def scheduled_case(ctx, cls, wkls, schedule, style="given", prepop=None):
-    run = run_threads(ctx, cls, wkls, schedule, prepop=prepop)
+def scheduled_case(ctx, cls, wkls, schedule, style="given", prepop=None, pool=None):
+    run = run_threads(ctx, cls, wkls, schedule, prepop=prepop, pool=pool)
     problems, objs, leftovers, rows = judge(cls, wkls, run, prepop)
     steps, unknown = abstract(cls, wkls, run["trace"])
     gh = hashlib.sha1(bytes(run["grants"])).hexdigest()
     case = {"cls": cls, "workloads": hexwl(wkls), "schedule": run["grants"], "style": style}
     if prepop:
         case["prepop"] = {k: v.hex() for k, v in prepop.items()}
+    if pool:
+        case["pool"] = pool
     impl.rm_rf(run["root"])
     return case, run, problems, steps, unknown, objs, leftovers, rows, gh
 
@@ -810,11 +890,16 @@ def run(ctx):
         wkls = gen_workloads(rng, n, big=(ctx.tier != "quick" and rng.random() < 0.3))
         style, schedule = gen_schedule(rng, n, 60 * n + 100)
         prepop = None
-        if rng.random() < 0.15:
+        pool = None
+        if i % 16 == 3:
+            # the writer's own hashing pool (build's large-file path), completion order perturbed
+            wkls = gen_pool_workloads(rng, n)
+            pool = gen_pool(rng)
+        elif rng.random() < 0.15:
             man = manifest(wkls[0])
             k = rng.choice(list(man)[:-1])
             prepop = {k: man[k]}
-        out = scheduled_case(ctx, cls, wkls, schedule, style, prepop)
+        out = scheduled_case(ctx, cls, wkls, schedule, style, prepop, pool)
         _register(ctx, out, cases, seen_sched, unknown_total)
     t_trials = time.time() - t_start
     ctx.extra["schedules_distinct"] = len(seen_sched)
@@ -868,6 +953,8 @@ def _register(ctx, out, cases, seen_sched, unknown_total):
         ctx.count("step:" + k, v)
     if "prepop" in case:
         ctx.count("prepopulated")
+    if "pool" in case:
+        ctx.count("pool-hashing:scheduled")
     # how often the interesting races were actually driven (replayed on the abstract steps)
     present, protected = set(), set()
     for tid, s in steps:
@@ -909,27 +996,43 @@ def _register(ctx, out, cases, seen_sched, unknown_total):
 def stress(ctx):
     """free-running: threads in this process, then separate processes; audit only"""
     rng = ctx.rng
-    rounds_t = ctx.n(3, 40)
+    rounds_t = ctx.n(4, 40)
     rounds_p = ctx.n(2, 24)
-    for _ in range(rounds_t):
+    for _r in range(rounds_t):
         cls = rng.choice(["local", "base"])
         n = rng.choice([3, 4, 6]) if ctx.tier == "quick" else rng.choice([4, 6, 8])
-        wkls = gen_workloads(rng, n, big=True)
-        run_ = run_threads(ctx, cls, wkls, [], free=True, shared_state=rng.random() < 0.7)
+        pool = None
+        if _r % 2 == 0:
+            wkls = gen_pool_workloads(rng, n)
+            pool = gen_pool(rng)
+            ctx.count("pool-hashing:free-threads")
+        else:
+            wkls = gen_workloads(rng, n, big=True)
+        run_ = run_threads(ctx, cls, wkls, [], free=True, shared_state=rng.random() < 0.7, pool=pool)
         problems, *_ = judge(cls, wkls, run_)
         case = {"cls": cls, "workloads": hexwl(wkls), "mode": "free-threads"}
+        if pool:
+            case["pool"] = pool
         ctx.case(case, overlap(wkls) >= 1)
         ctx.count("stress:threads")
         for sig, what in problems:
             ctx.oracle_fail(sig, what, case)
         impl.rm_rf(run_["root"])
-    for _ in range(rounds_p):
+    for _r in range(rounds_p):
         cls = rng.choice(["local", "base"])
         n = rng.choice([3, 4]) if ctx.tier == "quick" else rng.choice([4, 6])
-        wkls = gen_workloads(rng, n, big=True)
-        run_ = run_processes(ctx, cls, wkls, rounds=2)
+        pool = None
+        if _r % 2 == 0:
+            wkls = gen_pool_workloads(rng, n)
+            pool = gen_pool(rng)
+            ctx.count("pool-hashing:free-processes")
+        else:
+            wkls = gen_workloads(rng, n, big=True)
+        run_ = run_processes(ctx, cls, wkls, rounds=2, pool=pool)
         problems, *_ = judge(cls, wkls, run_)
         case = {"cls": cls, "workloads": hexwl(wkls), "mode": "free-processes"}
+        if pool:
+            case["pool"] = pool
         ctx.case(case, overlap(wkls) >= 1)
         ctx.count("stress:processes")
         for sig, what in problems:
@@ -937,7 +1040,7 @@ def stress(ctx):
         impl.rm_rf(run_["root"])
 
 
-def run_processes(ctx, cls, wkls, rounds=1):
+def run_processes(ctx, cls, wkls, rounds=1, pool=None):
     from lib.core import REPO
 
     root = ctx.fresh("c16p")
@@ -947,7 +1050,8 @@ def run_processes(ctx, cls, wkls, rounds=1):
     env = dict(os.environ, PYTHONPATH=os.path.join(REPO, "src") + os.pathsep + os.path.dirname(os.path.dirname(os.path.abspath(__file__))),
                PYTHONHASHSEED="0", PYTHONDONTWRITEBYTECODE="1")
     go = os.path.join(root, "go")
-    procs = [subprocess.Popen([sys.executable, os.path.abspath(__file__), "worker", cls, root, str(i), str(rounds), go],
+    pj = json.dumps({"threshold": 0, "jobs": pool.get("jobs"), "delays": pool_delays(root, wkls, pool)}) if pool else ""
+    procs = [subprocess.Popen([sys.executable, os.path.abspath(__file__), "worker", cls, root, str(i), str(rounds), go, pj],
                               env=env, stdout=subprocess.PIPE, stderr=subprocess.PIPE, text=True)
              for i in range(len(wkls))]
     # start barrier: every worker has imported everything and waits for the go file
@@ -983,14 +1087,14 @@ def replay_case(ctx, case):
     wkls = unhexwl(case["workloads"])
     cls = case["cls"]
     if case.get("mode") == "free-threads":
-        run_ = run_threads(ctx, cls, wkls, [], free=True)
+        run_ = run_threads(ctx, cls, wkls, [], free=True, pool=case.get("pool"))
     elif case.get("mode") == "free-processes":
-        run_ = run_processes(ctx, cls, wkls, rounds=2)
+        run_ = run_processes(ctx, cls, wkls, rounds=2, pool=case.get("pool"))
     elif case.get("mode") == "nonroot":
         return nonroot_case(ctx, case)
     else:
         prepop = {k: bytes.fromhex(v) for k, v in case.get("prepop", {}).items()} or None
-        run_ = run_threads(ctx, cls, wkls, case.get("schedule", []), prepop=prepop)
+        run_ = run_threads(ctx, cls, wkls, case.get("schedule", []), prepop=prepop, pool=case.get("pool"))
     problems, objs, leftovers, rows = judge(cls, wkls, run_)
     return {"results": {str(k): v for k, v in run_["results"].items()}, "problems": problems,
             "store": {o: (len(b), oct(m)) for o, (b, m) in objs.items()}, "leftovers": leftovers,
@@ -1163,6 +1267,25 @@ if __name__ == "__main__" and len(sys.argv) > 1 and sys.argv[1] == "worker":
     from dvc_data.hashfile.state import State  # noqa: E402
     from dvc_data.hashfile.transfer import transfer  # noqa: E402
 
+    _pj = json.loads(sys.argv[7]) if len(sys.argv) > 7 and sys.argv[7] else None
+    _kw = {}
+    if _pj:
+        import dvc_data.hashfile.build as bmod  # noqa: E402
+
+        _o_bf, _o_hash = bmod._build_files, bmod.hash_file
+
+        def _p_bf(root, file_infos, fs, name, **kw):
+            kw["large_file_threshold"] = _pj["threshold"]
+            return _o_bf(root, file_infos, fs, name, **kw)
+
+        def _p_hash(path, *a, **kw):
+            d = _pj["delays"].get(path)
+            if d:
+                time.sleep(d)
+            return _o_hash(path, *a, **kw)
+
+        bmod._build_files, bmod.hash_file = _p_bf, _p_hash
+        _kw = {"checksum_jobs": _pj["jobs"]}
     st = State(root_dir=_root, tmp_dir=os.path.join(_root, "st"))
     odb = impl.make_odb(_cls, os.path.join(_root, "store"), state=st)
     with open(os.path.join(_root, f"ready{_i}"), "w") as fh:
@@ -1173,7 +1296,7 @@ if __name__ == "__main__" and len(sys.argv) > 1 and sys.argv[1] == "worker":
     failed = []
     oid = None
     for _ in range(_rounds):
-        staging, _meta, obj = build(odb, os.path.join(_root, f"w{_i}"), localfs, "md5")
+        staging, _meta, obj = build(odb, os.path.join(_root, f"w{_i}"), localfs, "md5", **_kw)
         res = transfer(staging, odb, {obj.hash_info}, shallow=False)
         oid = obj.oid
         failed += sorted(h.value for h in res.failed)
